@@ -223,7 +223,8 @@ def run(ctx):
                 ctx.violation("satellite is below the horizon of its pixel (far intersection chosen)",
                               {"signature": s + ":horizon", **cb, "grad_dot": hz})
 
-    for i in range(ctx.n(500, 5000)):
+    hangs = 0
+    for i in range(ctx.n(1500, 12000)):
         shape = rand_shape(rng)
         n = int(np.prod(shape))
         f0 = rand_angles(rng, shape, -70, 70, wide=(72, 89))
@@ -321,10 +322,13 @@ def run(ctx):
                                   {"signature": sig + ":%d:along" % j, **cb, "angle_rad": F1[j], "component_forward": al, "with_across": al2})
 
         # --- lon/lat/alt of the pixels: terminates, |alt| <= 10 m on the ellipsoid, NaN exactly for the missed
+        if hangs >= 2:
+            continue                    # already reported twice; do not wait for every further time-out
         try:
             with common.time_limit(30), np.errstate(invalid="ignore"):
                 lon, lat, alt = geoloc.get_lonlatalt(pix.copy(), times)
         except common.Timeout:
+            hangs += 1
             ctx.violation("get_lonlatalt did not terminate on the computed pixels%s" % (" (NaN pixels present)" if np.isnan(P).any() else ""),
                           {"signature": sig + ":lla_hang", **base, "pixels": pix.tolist()})
             continue
